@@ -261,7 +261,7 @@ func execLog(p LProg) (*lhist, func()) {
 		for i, op := range p.Gs[g] {
 			vk.Perturb(op.P)
 			h.gs[g][i].G, h.gs[g][i].I = g, i
-			do(op, &h.gs[g][i], &slots)
+			guard(&h.gs[g][i], func() { do(op, &h.gs[g][i], &slots) })
 		}
 	}
 	if len(p.Gs) == 1 {
@@ -273,7 +273,7 @@ func execLog(p LProg) (*lhist, func()) {
 	var ps [4]handle
 	for i, op := range p.Post {
 		h.post[i].G, h.post[i].I = -2, i
-		do(op, &h.post[i], &ps)
+		guard(&h.post[i], func() { do(op, &h.post[i], &ps) })
 	}
 	return h, func() {
 		_ = prov.Shutdown(context.Background())
@@ -338,7 +338,7 @@ func (h *lhist) render() []string {
 // history oracle (exact for one-goroutine programs)
 
 func oracleLog(h *lhist) ([]vk.Violation, map[string]bool) {
-	var vs []vk.Violation
+	vs := panicViolations(h.calls())
 	cl := map[string]bool{}
 	bad := func(kind, format string, a ...any) { vs = append(vs, vk.V(kind, format, a...)) }
 	calls := h.calls()
@@ -524,7 +524,8 @@ func genProcs(t *rapid.T) []int {
 
 func genLogSeq(t *rapid.T) LProg {
 	p := LProg{Procs: genProcs(t)}
-	p.Gs = [][]LOp{rapid.SliceOfN(genRawLOp(false), 1, 40).Draw(t, "ops")}
+	minLen := rapid.SampledFrom([]int{1, 1, 8, 16}).Draw(t, "min_ops")
+	p.Gs = [][]LOp{rapid.SliceOfN(genRawLOp(false), minLen, 40).Draw(t, "ops")}
 	normaliseL(&p)
 	return p
 }
@@ -561,7 +562,7 @@ func TestLogLifecycle(t *testing.T) {
 		Property: "C15", Check: "log_lifecycle",
 		Rule: "generated op lists (1-40 ops: Logger / Emit through the logger obtained at construction, through loggers obtained earlier or right now / ForceFlush / Shutdown with live or already-cancelled contexts, repeated) on a LoggerProvider with 0-4 processors drawn from recording processors (one failing), SimpleProcessor and BatchProcessor around a recording exporter and around nil; " +
 			"non-trivial = at least one processor, a Shutdown with a live context returned nil and an Emit follows it; distinct = distinct case encodings",
-		Quick: 2500, Thorough: 40000,
+		Quick: 2000, Thorough: 25000,
 		Gen: genLogSeq, Run: runLogSeq,
 		CaseTimeout: 30 * time.Second,
 	})
